@@ -182,6 +182,9 @@ def classify_sanitizer(text):
     return '%s@%s' % (kind, func), text[:3000]
 
 
+HEAP_DAMAGE = ('ledger/tail-canary', 'ledger/under-run', 'ledger/write-after-free', 'ledger/heap-over-access', 'ledger/double-free', 'ledger/foreign-free')
+
+
 def run_driver(binary, cases_path, log_path, thorough=False, timeout=3600):
     """Run a case file to completion, restarting after every death.  Returns dict id -> CaseLog."""
     if os.path.exists(log_path):
@@ -209,6 +212,14 @@ def run_driver(binary, cases_path, log_path, thorough=False, timeout=3600):
             except subprocess.TimeoutExpired:
                 rc = -999
         cases, finished, harness = parse_log(log_path) if os.path.exists(log_path) else ({}, False, None)
+        if (harness or rc == 2) and cases and 'harness-crash' in str(harness) and any(
+                k.startswith(HEAP_DAMAGE) for c in cases.values() for (_i, k, _d) in c.vios):
+            # the driver crashed outside a library call, but in this very process a monitor had already
+            # seen the library damage the heap (overrun canary, write after free, ...): the crash is the
+            # late effect of that violation (the C library's own heap checks fired), not a harness defect
+            harness = None
+            rc = 3
+            finished = False
         if harness or rc == 2:
             with open(err_path, 'r', errors='replace') as ef:
                 raise HarnessFailure('driver harness failure: %s\n%s' % (harness, ef.read()[-3000:]))
